@@ -641,4 +641,330 @@ theorem forIn_except_map {ε α β : Type} (step : α → Except ε β)
       | ok ys => simp
 
 
+/-! ## `calculateLine` and `calculateLines` (B22)
+
+`calculateLine` is cut in two: the loop over the breakdown (`bdBody`, closed form
+`forIn_bdBody`) and the part after it (`lineFinish`, a copy of the generated text from
+`if l.Item.Price == nil` on; `calculateLine_nil` / `calculateLine_cons` prove that the
+regenerated definition IS that composition, so a change of the Go function breaks them).
+The model is cut the same way (`modelFinish`, `calcLine_split`).  The loop over
+`l.Substituted` is outside: the model has no substituted sub-lines (hypothesis
+`l.Substituted = []`). -/
+
+open GoblVerif.Generated.BillCalcSrc (CurAmount calculateLineItemPrice calculateLineDiscounts calculateLineCharges calculateSubLine determineSubLinePrecision)
+
+/-- the part of `calculateLine` after the breakdown -/
+def lineFinish (o : GoblVerif.Calc.Ops) (sub : String → Nat) (l : BillCalcSrc.Line) (cur : String) (rates : List GoblVerif.Calc.XRate) (rr : String) : Except GoblVerif.CalcSrc.GoErr BillCalcSrc.Line := do
+  let mut l := l
+  let zero : GoblVerif.Amount := (GoblVerif.Amount.mk 0 ((some (sub cur) : Option Nat).get!))
+  if l.Item.get!.Price.isNone = true then
+    l := { l with Item := some { l.Item.get! with AltPrices := ([] : List CurAmount) } }
+    l := { l with Sum := (none : Option GoblVerif.Amount) }
+    l := { l with Total := (none : Option GoblVerif.Amount) }
+    return l
+  let t6 ← Except.mapError (fun err_2 => GoblVerif.CalcSrc.GoErr.at "item" err_2) (calculateLineItemPrice o sub l.Item.get! cur rates)
+  l := { l with Item := some t6 }
+  let mut exp : Nat := zero.exp
+  if rr = "precise" then
+    exp := exp + (2 : Nat)
+  let price : GoblVerif.Amount := GoblVerif.Calc.up l.Item.get!.Price.get! exp
+  let mut sum : GoblVerif.Amount := o.mul price l.Quantity
+  sum := GoblVerif.CalcSrc.applyRoundingRule o sub rr cur sum
+  let mut total : GoblVerif.Amount := sum
+  let t7 := calculateLineDiscounts o sub l.Discounts sum total cur rr
+  total := t7.1
+  l := { l with Discounts := t7.2 }
+  let t8 := calculateLineCharges o sub l.Charges l.Quantity sum total cur rr
+  total := t8.1
+  l := { l with Charges := t8.2 }
+  l := { l with Sum := some sum }
+  l := { l with Total := some total }
+  return l
+
+theorem calculateLine_nil (o : Ops) (sub : String → Nat) (l : BillCalcSrc.Line) (it : BillCalcSrc.Item) (cur : String)
+    (rates : List XRate) (rr : String) (hi : l.Item = some it) (hs : l.Substituted = []) (hb : l.Breakdown = []) :
+    BillCalcSrc.calculateLine o sub l cur rates rr = lineFinish o sub l cur rates rr := by
+  obtain ⟨q, it', bd, sm, ds, cs, tx, tt, sb⟩ := l
+  simp only at hi hs hb
+  subst hi hs hb
+  unfold BillCalcSrc.calculateLine lineFinish
+  simp only [Option.isNone_some, Bool.false_eq_true, if_false, List.length_nil, Int.natCast_zero, Int.lt_irrefl, gt_iff_lt]
+
+/-- the body of the breakdown loop -/
+def bdBody (o : Ops) (sub : String → Nat) (cur : String) (rates : List XRate) (rr : String) (it4 : BillCalcSrc.SubLine × Nat) (s : Amount × Bool × List BillCalcSrc.SubLine) :
+    Except GoErr (ForInStep (Amount × Bool × List BillCalcSrc.SubLine)) := do
+  let t5 ← Except.mapError (fun err => GoErr.at "breakdown" (GoErr.at (toString (it4.2 : Int)) err))
+      (calculateSubLine o sub it4.1 cur rates rr)
+  if t5.Total.isSome = true then
+    pure (ForInStep.yield (add o (matchPrecision s.1 t5.Total.get!) t5.Total.get!, true, s.2.2 ++ [t5]))
+  else pure (ForInStep.yield (s.1, s.2.1, s.2.2 ++ [t5]))
+
+/-- the line handed to the finishing part after the breakdown loop ended in state `s` -/
+def afterBd (o : Ops) (sub : String → Nat) (cur : String) (l : BillCalcSrc.Line) (s : Amount × Bool × List BillCalcSrc.SubLine) : BillCalcSrc.Line :=
+  if s.2.1 = true then
+    { l with Breakdown := s.2.2,
+             Item := some ⟨cur, some (o.rescale s.1 (determineSubLinePrecision o sub s.2.2)), []⟩ }
+  else { l with Breakdown := s.2.2 }
+
+theorem calculateLine_cons (o : Ops) (sub : String → Nat) (l : BillCalcSrc.Line) (it : BillCalcSrc.Item) (cur : String)
+    (rates : List XRate) (rr : String) (hi : l.Item = some it) (hs : l.Substituted = []) (hb : l.Breakdown ≠ []) :
+    BillCalcSrc.calculateLine o sub l cur rates rr = (do
+      let s ← forIn l.Breakdown.zipIdx ((⟨0, sub cur⟩ : Amount), false, ([] : List BillCalcSrc.SubLine)) (bdBody o sub cur rates rr)
+      lineFinish o sub (afterBd o sub cur l s) cur rates rr) := by
+  obtain ⟨q, it', bd, sm, ds, cs, tx, tt, sb⟩ := l
+  simp only at hi hs hb
+  subst hi hs
+  have hl : (0 : Int) < bd.length := by
+    cases bd with
+    | nil => exact absurd rfl hb
+    | cons a b => simp
+  unfold BillCalcSrc.calculateLine
+  simp only [Option.isNone_some, Bool.false_eq_true, if_false, List.length_nil, Int.natCast_zero, Int.lt_irrefl, gt_iff_lt, hl, if_true]
+  show _ = bind _ _
+  congr 1
+  funext s
+  obtain ⟨np, hp, acc⟩ := s
+  cases hp
+  · simp only [afterBd, Bool.false_eq_true, if_false]
+    unfold lineFinish
+    rfl
+  · simp only [afterBd,  if_true]
+    unfold lineFinish
+    rfl
+
+/-! ### the loop over the breakdown, and the model's recursion -/
+
+def bdStep (o : Ops) (sub : String → Nat) (cur : String) (rates : List XRate) (rr : String) (x : BillCalcSrc.SubLine × Nat) :
+    Except GoErr BillCalcSrc.SubLine :=
+  Except.mapError (fun err => GoErr.at "breakdown" (GoErr.at (toString (x.2 : Int)) err))
+    (calculateSubLine o sub x.1 cur rates rr)
+
+theorem bdBody_eq (o : Ops) (sub : String → Nat) (cur : String) (rates : List XRate) (rr : String)
+    (x : BillCalcSrc.SubLine × Nat) (s : Amount × Bool × List BillCalcSrc.SubLine) :
+    bdBody o sub cur rates rr x s = match bdStep o sub cur rates rr x with
+      | .error e => .error e
+      | .ok y => .ok (.yield (match y.Total with
+          | some t => (accum o s.1 t, true, s.2.2 ++ [y])
+          | none => (s.1, s.2.1, s.2.2 ++ [y]))) := by
+  unfold bdBody
+  change (bind (bdStep o sub cur rates rr x) _) = _
+  cases bdStep o sub cur rates rr x with
+  | error e => rfl
+  | ok y =>
+    simp only [bind, Except.bind]
+    cases hy : y.Total <;> simp [pure, Except.pure, matchPrecision_add]
+
+theorem forIn_bdBody (o : Ops) (sub : String → Nat) (cur : String) (rates : List XRate) (rr : String)
+    (l : List (BillCalcSrc.SubLine × Nat)) (np : Amount) (hp : Bool) (acc : List BillCalcSrc.SubLine) :
+    forIn l (np, hp, acc) (bdBody o sub cur rates rr) = match mapE (bdStep o sub cur rates rr) l with
+      | .error e => .error e
+      | .ok ys => .ok ((ys.filterMap (·.Total)).foldl (accum o) np, (hp || !(ys.filterMap (·.Total)).isEmpty), acc ++ ys) := by
+  induction l generalizing np hp acc with
+  | nil => simp [mapE, pure, Except.pure]
+  | cons a l ih =>
+    rw [List.forIn_cons, bdBody_eq]
+    simp only [mapE]
+    cases bdStep o sub cur rates rr a with
+    | error e => rfl
+    | ok y =>
+      simp only [bind, Except.bind]
+      cases hy : y.Total with
+      | none =>
+        simp only []
+        rw [ih]
+        cases mapE (bdStep o sub cur rates rr) l with
+        | error e => rfl
+        | ok ys => simp [hy]
+      | some t =>
+        simp only []
+        rw [ih]
+        cases mapE (bdStep o sub cur rates rr) l with
+        | error e => rfl
+        | ok ys => simp [hy]
+
+theorem errOf_at (k : String) (e : GoErr) : errOf (GoErr.at k e) = errOf e := rfl
+
+/-- an error loop over `l.zipIdx` whose step wraps the error under the index, read as the model's recursion -/
+theorem mapE_model {α β α' β' : Type} (F : α → Except GoErr α') (G : β → Except CalcErr β') (f : α → β) (f' : α' → β')
+    (w : Nat → GoErr → GoErr) (hw : ∀ i e, errOf (w i e) = errOf e) (l : List α)
+    (h : ∀ x ∈ l, toModel f' (F x) = G (f x)) (k : Nat) :
+    toModel (List.map f') (mapE (fun x : α × Nat => Except.mapError (w x.2) (F x.1)) (l.zipIdx k)) = mapE G (l.map f) := by
+  induction l generalizing k with
+  | nil => rfl
+  | cons a l ih =>
+    simp only [List.zipIdx_cons, List.map_cons, mapE]
+    rw [← h a (List.mem_cons_self ..), ← ih (fun x hx => h x (List.mem_cons_of_mem _ hx)) (k + 1)]
+    generalize mapE (fun x : α × Nat => Except.mapError (w x.2) (F x.1)) (l.zipIdx (k + 1)) = r
+    cases F a with
+    | error e => simp [toModel, Except.mapError, hw]
+    | ok y => cases r <;> rfl
+
+theorem calcSubLines_eq_mapE (o : Ops) (cur : String) (c : Nat) (rates : List XRate) (r : Rule) (l : List Calc.SubLine) :
+    calcSubLines o cur c rates r l = mapE (calcSubLine o cur c rates r) l := by
+  induction l with
+  | nil => rfl
+  | cons a l ih =>
+    simp only [calcSubLines, mapE, ih]
+    cases calcSubLine o cur c rates r a with
+    | error e => rfl
+    | ok y => cases mapE (calcSubLine o cur c rates r) l <;> rfl
+
+theorem calcLines_eq_mapE (o : Ops) (cur : String) (c : Nat) (rates : List XRate) (r : Rule) (l : List Calc.Line) :
+    calcLines o cur c rates r l = mapE (calcLine o cur c rates r) l := by
+  induction l with
+  | nil => rfl
+  | cons a l ih =>
+    simp only [calcLines, mapE, ih]
+    cases calcLine o cur c rates r a with
+    | error e => rfl
+    | ok y => cases mapE (calcLine o cur c rates r) l <;> rfl
+
+
+/-! ### the finishing part against the model -/
+
+/-- the part of `Calc.calcLine` after the breakdown: `it1` is the item (replaced when the breakdown gave a price), `bd` the calculated breakdown -/
+def modelFinish (o : Ops) (cur : String) (c : Nat) (rates : List XRate) (r : Rule) (l : Calc.Line) (it1 : Item)
+    (bd : List Calc.SubLine) : Except CalcErr Calc.Line :=
+  match it1.price with
+  | none => .ok { l with item := some { it1 with alts := [] }, breakdown := bd, sum := none, total := none }
+  | some p0 =>
+    match itemPrice o cur c rates it1 p0 with
+    | .error e => .error e
+    | .ok it2 =>
+      let p := it2.price.getD p0
+      let exp := if r == .precise then c + E else c
+      let price := up p exp
+      let sum := applyRule o r c (o.mul price l.qty)
+      let (ds, t1) := lineDiscounts o r c sum l.discounts sum
+      let (cs, t2) := lineCharges o r c l.qty sum l.charges t1
+      .ok { l with item := some it2, breakdown := bd, discounts := ds, charges := cs,
+                   sum := some sum, total := some t2 }
+
+theorem calcLine_split (o : Ops) (cur : String) (c : Nat) (rates : List XRate) (r : Rule) (l : Calc.Line) (it0 : Item)
+    (hi : l.item = some it0) :
+    calcLine o cur c rates r l =
+      match calcSubLines o cur c rates r l.breakdown with
+      | .error e => .error e
+      | .ok bd =>
+        let totals := bd.filterMap (·.total)
+        modelFinish o cur c rates r l
+          (if l.breakdown.isEmpty || totals.isEmpty then it0 else
+            { it0 with cur := cur, sub := c, price := some (o.rescale (totals.foldl (accum o) ⟨0, c⟩) (subLinePrecision bd)), alts := [] })
+          bd := by
+  obtain ⟨q, it, ds, cs, bd, tx, sm, tt⟩ := l
+  simp only at hi
+  subst hi
+  rfl
+
+
+theorem lineFinish_eq (o : Ops) (sub : String → Nat) (l : BillCalcSrc.Line) (it : BillCalcSrc.Item) (cur : String)
+    (rates : List XRate) (rr : String) (hr : ∀ r ∈ rates, r.toSub = sub r.to) (hi : l.Item = some it) (m : Calc.Line)
+    (hq : m.qty = l.Quantity) (hd : m.discounts = l.Discounts.map toAdj) (hc : m.charges = l.Charges)
+    (ht : m.taxes = l.Taxes) :
+    toModel (toLine (toItem sub cur)) (lineFinish o sub l cur rates rr)
+      = modelFinish o cur (sub cur) rates (ruleOf rr) m (toItem sub cur it)
+          (l.Breakdown.map (toSubLine (toItem sub cur))) := by
+  obtain ⟨q, it', bd, sm, ds, cs, tx, tt, sb⟩ := l
+  obtain ⟨mq, mi, md, mc, mb, mt, ms, mtt⟩ := m
+  simp only at hi hq hd hc ht
+  subst hi hq hd hc ht
+  unfold lineFinish modelFinish
+  cases hp : it.Price with
+  | none => simp [toModel, toLine, toItem, hp, pure, Except.pure]
+  | some p0 =>
+    have hi := calculateLineItemPrice_eq o sub it p0 hp cur rates hr
+    simp only [toItem, hp, Option.isNone_some, Bool.false_eq_true, if_false, some_get!]
+    simp only [toItem, hp] at hi
+    rw [← hi]
+    cases hc : BillCalcSrc.calculateLineItemPrice o sub it cur rates with
+    | error e => simp [toModel, bind, Except.bind, Except.mapError, errOf_at]
+    | ok t0 =>
+      rw [hc] at hi
+      obtain ⟨p, hp'⟩ := itemPrice_ok_price _ _ _ _ _ _ _ hi.symm
+      have hp'' : t0.Price = some p := hp'
+      have hd := calculateLineDiscounts_eq o sub ds
+      have hcg := calculateLineCharges_eq o sub mc mq
+      simp only at hd hcg
+      simp only [toModel, bind, Except.bind, Except.mapError, pure, Except.pure, hp', hp'', some_get!, Option.getD_some, ruleOf_precise,
+        applyRoundingRule, E, ← hd, ← hcg]
+      by_cases hpr : rr = "precise" <;> simp [hpr, toItem, toLine, hp'']
+
+
+theorem toModel_ok {α β : Type} (f : α → β) (a : α) : toModel f (.ok a) = .ok (f a) := rfl
+
+theorem filterMap_total_toSubLine (fI : BillCalcSrc.Item → Item) (ys : List BillCalcSrc.SubLine) :
+    (ys.map (toSubLine fI)).filterMap (·.total) = ys.filterMap (·.Total) := by
+  rw [List.filterMap_map]; rfl
+
+/-- `calculateLine` = `Calc.calcLine`, for every line without substituted sub-lines (the model has none) -/
+theorem calculateLine_eq (o : Ops) (sub : String → Nat) (l : BillCalcSrc.Line) (cur : String)
+    (rates : List XRate) (rr : String) (hr : ∀ r ∈ rates, r.toSub = sub r.to) (hs : l.Substituted = []) :
+    toModel (toLine (toItem sub cur)) (BillCalcSrc.calculateLine o sub l cur rates rr)
+      = calcLine o cur (sub cur) rates (ruleOf rr) (toLine (toItem sub cur) l) := by
+  cases hI : l.Item with
+  | none =>
+    obtain ⟨q, it', bd, sm, ds, cs, tx, tt, sb⟩ := l
+    simp only at hI
+    subst hI
+    simp [BillCalcSrc.calculateLine, calcLine, toModel, toLine, pure, Except.pure]
+  | some it =>
+    have hmi : (toLine (toItem sub cur) l).item = some (toItem sub cur it) := by simp [toLine, hI]
+    rw [calcLine_split _ _ _ _ _ _ _ hmi, calcSubLines_eq_mapE]
+    have hsl := mapE_model (fun sl => BillCalcSrc.calculateSubLine o sub sl cur rates rr)
+      (calcSubLine o cur (sub cur) rates (ruleOf rr)) (toSubLine (toItem sub cur)) (toSubLine (toItem sub cur))
+      (fun i err => GoErr.at "breakdown" (GoErr.at (toString (i : Int)) err)) (fun _ _ => rfl)
+      l.Breakdown (fun sl _ => calculateSubLine_eq o sub sl cur rates rr hr) 0
+    by_cases hb : l.Breakdown = []
+    · rw [calculateLine_nil o sub l it cur rates rr hI hs hb]
+      rw [lineFinish_eq o sub l it cur rates rr hr hI (toLine (toItem sub cur) l) rfl rfl rfl rfl]
+      simp [toLine, hb, mapE]
+    · rw [calculateLine_cons o sub l it cur rates rr hI hs hb, forIn_bdBody]
+      have hbm : (toLine (toItem sub cur) l).breakdown = l.Breakdown.map (toSubLine (toItem sub cur)) := rfl
+      rw [hbm, ← hsl]
+      change toModel _ (bind (match mapE (bdStep o sub cur rates rr) l.Breakdown.zipIdx with
+        | .error e => .error e | .ok ys => .ok _) _) = _
+      have : (fun x : BillCalcSrc.SubLine × Nat => Except.mapError (fun err => GoErr.at "breakdown" (GoErr.at (toString (x.2 : Int)) err))
+          (BillCalcSrc.calculateSubLine o sub x.1 cur rates rr)) = bdStep o sub cur rates rr := rfl
+      rw [this]
+      cases mapE (bdStep o sub cur rates rr) l.Breakdown.zipIdx with
+      | error e => rfl
+      | ok ys =>
+        simp only [bind, Except.bind, toModel_ok, filterMap_total_toSubLine, Bool.false_or, List.nil_append]
+        have hbe : (List.map (toSubLine (toItem sub cur)) l.Breakdown).isEmpty = false := by
+          cases hbb : l.Breakdown with
+          | nil => exact absurd hbb hb
+          | cons a b => rfl
+        rw [hbe, Bool.false_or]
+        cases ht : (ys.filterMap (·.Total)).isEmpty with
+        | true =>
+          simp only [afterBd, Bool.not_true, Bool.false_eq_true, if_false, if_true]
+          rw [lineFinish_eq o sub { l with Breakdown := ys } it cur rates rr hr hI (toLine (toItem sub cur) l) rfl rfl rfl rfl]
+        | false =>
+          simp only [afterBd, Bool.not_false, if_true, Bool.false_eq_true, if_false]
+          have key := fun X : Amount => lineFinish_eq o sub { l with Breakdown := ys, Item := some ⟨cur, some X, []⟩ } ⟨cur, some X, []⟩
+            cur rates rr hr rfl (toLine (toItem sub cur) l) rfl rfl rfl rfl
+          rw [key]
+          rw [determineSubLinePrecision_model o sub (toItem sub cur) (fun _ => rfl)]
+          simp [toItem]
+
+
+/-- `calculateLines` = `Calc.calcLines`, for lines without substituted sub-lines -/
+theorem calculateLines_eq (o : Ops) (sub : String → Nat) (ls : List BillCalcSrc.Line) (cur : String)
+    (rates : List XRate) (rr : String) (hr : ∀ r ∈ rates, r.toSub = sub r.to) (hs : ∀ l ∈ ls, l.Substituted = []) :
+    toModel (List.map (toLine (toItem sub cur))) (BillCalcSrc.calculateLines o sub ls cur rates rr)
+      = calcLines o cur (sub cur) rates (ruleOf rr) (ls.map (toLine (toItem sub cur))) := by
+  rw [calcLines_eq_mapE]
+  rw [← mapE_model (fun l => BillCalcSrc.calculateLine o sub l cur rates rr)
+      (calcLine o cur (sub cur) rates (ruleOf rr)) (toLine (toItem sub cur)) (toLine (toItem sub cur))
+      (fun i err => GoErr.at (toString (i : Int)) err) (fun _ _ => rfl)
+      ls (fun l hl => calculateLine_eq o sub l cur rates rr hr (hs l hl)) 0]
+  unfold BillCalcSrc.calculateLines
+  simp only []
+  rw [forIn_except_map (fun x : BillCalcSrc.Line × Nat => Except.mapError (fun err => GoErr.at (toString (x.2 : Int)) err)
+      (BillCalcSrc.calculateLine o sub x.1 cur rates rr))]
+  · cases mapE (fun x : BillCalcSrc.Line × Nat => Except.mapError (fun err => GoErr.at (toString (x.2 : Int)) err)
+      (BillCalcSrc.calculateLine o sub x.1 cur rates rr)) ls.zipIdx <;> rfl
+  · intro x s
+    cases Except.mapError (fun err => GoErr.at (toString (x.2 : Int)) err) (BillCalcSrc.calculateLine o sub x.1 cur rates rr) <;> rfl
+
 end GoblVerif.Proofs.BillCalcSrc
